@@ -29,7 +29,7 @@ def main():
         if a.replay:
             return mod.replay(ctx, a.replay)
         if not a.no_build:
-            ctx.build = common.build(pid, bridge_modules=getattr(mod, 'BRIDGE', ()))
+            ctx.build = common.build(pid, bridge_modules=getattr(mod, 'BRIDGE', ()), props_modules=getattr(mod, 'PROPS', None))
         mod.run(ctx)
         return ctx.finish()
     except common.HarnessError as e:
